@@ -124,8 +124,10 @@ theorem kid_rank {s : State} (ht : TreeOK (tree s)) {h : Nat → Nat}
   simp only [hcp] at this
   exact ⟨this, mem_get? ht.nodup hc⟩
 
-/-- A state that satisfies the local request equations has no negative request figure anywhere. -/
-theorem reqInv_nonneg {s : State} (ht : TreeOK (tree s)) (hp : ParamsOK s) (hl : ReqInv s) :
+/-- tree equations + non-negative self figures + non-negative maxima: every request figure is non-negative -/
+theorem reqNonneg_of_eqs {s : State} (ht : TreeOK (tree s)) (hmax : ∀ q ∈ s, ∀ m, q.max = some m → 0 ≤ m)
+    (hl : ∀ m q, get? s m = some q → 0 ≤ q.selfRequest ∧ 0 ≤ q.selfNpRequest ∧ dCR s m q = 0 ∧ dNpReq s m q = 0 ∧
+      (m ≠ rootName → q.request = lendRule q q.childRequest)) :
     ∀ m q, get? s m = some q → RNonneg q := by
   obtain ⟨h, hrank⟩ := ht.ranked
   suffices H : ∀ n, ∀ m q, h m < n → get? s m = some q → RNonneg q from
@@ -141,24 +143,51 @@ theorem reqInv_nonneg {s : State} (ht : TreeOK (tree s)) (hp : ParamsOK s) (hl :
       intro c hc hcp
       have := kid_rank ht hrank hq hc hcp
       exact ih c.name c (by omega) this.2
-    have hi := hl m q hq
-    obtain ⟨hmax, hpods⟩ := hp q hqs
-    have s1 := podSum_nonneg (fun _ => true) q.pods hpods
-    have s2 := podSum_nonneg (fun p => p.np) q.pods hpods
+    obtain ⟨s1, s2, e1, e2, hrule⟩ := hl m q hq
     have k1 : 0 ≤ sumKids Quota.limited m s := sumKids_nonneg _ _ _ (fun c hc hcp =>
-      limit_nonneg (hkid c hc hcp).request (hp c hc).1)
+      limit_nonneg (hkid c hc hcp).request (hmax c hc))
     have k2 : 0 ≤ sumKids (·.npRequest) m s := sumKids_nonneg _ _ _ (fun c hc hcp => (hkid c hc hcp).npRequest)
-    have e1 := hi.cr; have e2 := hi.npReq
     simp only [dCR, dNpReq] at e1 e2
-    have hcr : 0 ≤ crOf q := by rw [hi.selfReq] at e1; omega
+    have hcr : 0 ≤ crOf q := by omega
     have hreq : 0 ≤ q.request := by
       by_cases hr : m = rootName
       · simp only [crOf, hqn, hr, if_true] at hcr; exact hcr
-      · have := hi.rule hr
+      · have := hrule hr
         have h2 := lendRule_ge q q.childRequest
         simp only [crOf, hqn, hr, if_false] at hcr
         omega
-    exact ⟨hcr, hreq, by rw [hi.selfNpReq] at e2; omega, by rw [hi.selfReq]; exact s1, by rw [hi.selfNpReq]; exact s2⟩
+    exact ⟨hcr, hreq, by omega, s1, s2⟩
+
+/-- A state that satisfies the local request equations has no negative request figure anywhere. -/
+theorem reqInv_nonneg {s : State} (ht : TreeOK (tree s)) (hp : ParamsOK s) (hl : ReqInv s) :
+    ∀ m q, get? s m = some q → RNonneg q :=
+  reqNonneg_of_eqs ht (fun q hq => (hp q hq).1) (fun m q hq => by
+    have hi := hl m q hq
+    have hpods := (hp q (get?_mem hq)).2
+    exact ⟨by rw [hi.selfReq]; exact podSum_nonneg _ _ hpods, by rw [hi.selfNpReq]; exact podSum_nonneg _ _ hpods,
+      hi.cr, hi.npReq, hi.rule⟩)
+
+/-- used side of `reqNonneg_of_eqs` -/
+theorem usedNonneg_of_eqs {s : State} (ht : TreeOK (tree s))
+    (hl : ∀ m q, get? s m = some q → 0 ≤ q.selfUsed ∧ 0 ≤ q.selfNpUsed ∧ dUsed s m q = 0 ∧ dNpUsed s m q = 0) :
+    ∀ m q, get? s m = some q → UNonneg q := by
+  obtain ⟨h, hrank⟩ := ht.ranked
+  suffices H : ∀ n, ∀ m q, h m < n → get? s m = some q → UNonneg q from
+    fun m q hq => H (h m + 1) m q (by omega) hq
+  intro n
+  induction n with
+  | zero => intro m q hlt; omega
+  | succ n ih =>
+    intro m q hlt hq
+    have hkid : ∀ c ∈ s, c.parent = m → UNonneg c := by
+      intro c hc hcp
+      have := kid_rank ht hrank hq hc hcp
+      exact ih c.name c (by omega) this.2
+    obtain ⟨s3, s4, e3, e4⟩ := hl m q hq
+    have k3 : 0 ≤ sumKids (·.used) m s := sumKids_nonneg _ _ _ (fun c hc hcp => (hkid c hc hcp).used)
+    have k4 : 0 ≤ sumKids (·.npUsed) m s := sumKids_nonneg _ _ _ (fun c hc hcp => (hkid c hc hcp).npUsed)
+    simp only [dUsed, dNpUsed] at e3 e4
+    exact ⟨by omega, by omega, s3, s4⟩
 
 /-- A state that satisfies the local used equations has no negative used figure anywhere. -/
 theorem usedInv_nonneg {s : State} (ht : TreeOK (tree s)) (hp : ParamsOK s) (hl : UsedInv s) :
